@@ -41,7 +41,9 @@ where
         Ok(Ok(b)) => {
             if b != a {
                 st.eval(None);
-                st.violation(format!("{kind}:reparse-differs:{}", classify(text, &t)), format!("{kind}: `{text}` prints as `{t}` which parses to a different tree"), detail().set("reparsed_prints_as", J::s(b.to_string())));
+                let root = classify(text, &t);
+                let class = if root == "unclassified" { format!("{kind}:reparse-differs:unclassified") } else { root };
+                st.violation(class, format!("{kind}: `{text}` prints as `{t}` which parses to a different tree"), detail().set("reparsed_prints_as", J::s(b.to_string())));
             } else {
                 let t2 = b.to_string();
                 if t2 != t {
@@ -55,7 +57,9 @@ where
         }
         Ok(Err(e)) => {
             st.eval(None);
-            st.violation(format!("{kind}:reparse-fails:{}", classify(text, &t)), format!("{kind}: `{text}` prints as `{t}` which anthem rejects"), detail().set("error", J::s(e.to_string().lines().take(4).collect::<Vec<_>>().join(" | "))));
+            let root = classify(text, &t);
+            let class = if root == "unclassified" { format!("{kind}:reparse-fails:unclassified") } else { root };
+            st.violation(class, format!("{kind}: `{text}` prints as `{t}` which anthem rejects"), detail().set("error", J::s(e.to_string().lines().take(4).collect::<Vec<_>>().join(" | "))));
         }
         Err(p) => {
             st.eval(None);
@@ -66,6 +70,32 @@ where
 }
 
 fn no_class(_: &str, _: &str) -> String {
+    "unclassified".into()
+}
+
+/// root cause recogniser for the ASP side: the keyword `not` used as a symbolic constant (the
+/// grammar accepts it when it is not followed by white space, e.g. `p(not*3)`; printed with
+/// spaces around operators it becomes a negation sign)
+fn asp_class(text: &str, printed: &str) -> String {
+    let is_ident = |c: char| c.is_ascii_alphanumeric() || c == '_';
+    for t in [text, printed] {
+        let b: Vec<char> = t.chars().collect();
+        let mut i = 0;
+        while i + 3 <= b.len() {
+            if b[i] == 'n' && b[i + 1] == 'o' && b[i + 2] == 't' && (i == 0 || !is_ident(b[i - 1])) && (i + 3 == b.len() || !is_ident(b[i + 3])) {
+                // a negation sign is followed by white space and then by an atom (identifier)
+                let mut j = i + 3;
+                while j < b.len() && b[j].is_whitespace() {
+                    j += 1;
+                }
+                let sign = j > i + 3 && j < b.len() && (b[j].is_ascii_lowercase() || b[j] == '_' || b[j] == 'n');
+                if !sign {
+                    return "symbol-named-not".into();
+                }
+            }
+            i += 1;
+        }
+    }
     "unclassified".into()
 }
 
@@ -84,7 +114,7 @@ pub fn gen_flat_term(r: &mut Rng, depth: u32) -> String {
             2 => format!("{}", r.range(-5, 5)),
             3 => format!("-{}", r.range(0, 5)),
             4 => format!("- {}", r.range(0, 5)),
-            5 => ["a", "b", "_c", "aB_1"][r.upto(4)].to_string(),
+            5 => ["a", "b", "_c", "aB_1", "nota", "not_", "a", "b", "_c", "aB_1", "b", "not"][r.upto(12)].to_string(),
             6 => ["#inf", "#sup", "#infimum", "#supremum"][r.upto(4)].to_string(),
             7 => format!("-{}", ["X", "Y"][r.upto(2)]),
             _ => format!("({})", gen_flat_term(r, 1)),
@@ -167,16 +197,16 @@ fn asp_case(cfg: &Config, tmp: &std::path::Path, idx: u64, r: &mut Rng, st: &mut
     if idx < 3 {
         st.sample(J::obj().set("program_text", J::s(&text)).set("printed", J::s(text.parse::<asp::Program>().map(|p| p.to_string()).unwrap_or("rejected".into()))));
     }
-    let accepted = roundtrip::<asp::Program>("program", &text, &no_class, st);
+    let accepted = roundtrip::<asp::Program>("program", &text, &asp_class, st);
     if accepted {
         // the pieces as well
         if let Ok(p) = text.parse::<asp::Program>() {
             for rule in p.rules.iter().take(3) {
-                roundtrip::<asp::Rule>("rule", &rule.to_string(), &no_class, st);
-                roundtrip::<asp::Head>("head", &rule.head.to_string(), &no_class, st);
-                roundtrip::<asp::Body>("body", &rule.body.to_string(), &no_class, st);
+                roundtrip::<asp::Rule>("rule", &rule.to_string(), &asp_class, st);
+                roundtrip::<asp::Head>("head", &rule.head.to_string(), &asp_class, st);
+                roundtrip::<asp::Body>("body", &rule.body.to_string(), &asp_class, st);
                 for t in rule.terms().iter().take(3) {
-                    roundtrip::<asp::Term>("term", &t.to_string(), &no_class, st);
+                    roundtrip::<asp::Term>("term", &t.to_string(), &asp_class, st);
                 }
             }
         }
@@ -192,7 +222,8 @@ fn asp_case(cfg: &Config, tmp: &std::path::Path, idx: u64, r: &mut Rng, st: &mut
                     std::fs::write(&f, &out.stdout).unwrap();
                     if let Ok(out2) = run_cli(&cfg.anthem_release(), &["parse", "--as", "program", "--output", "default", f.to_str().unwrap()], None, &[], None) {
                         if out2.code != Some(0) || out2.stdout != out.stdout {
-                            st.violation("cli-roundtrip", "the CLI does not accept / reproduce its own printed program", J::obj().set("text", J::s(&text)).set("printed", J::s(out.stdout)).set("second", J::s(out2.stdout)));
+                            let root = asp_class(&text, &out.stdout);
+                            st.violation(if root == "unclassified" { "cli-roundtrip".to_string() } else { root }, "the CLI does not accept / reproduce its own printed program", J::obj().set("text", J::s(&text)).set("printed", J::s(out.stdout)).set("second", J::s(out2.stdout)));
                         }
                     }
                 }
@@ -203,8 +234,15 @@ fn asp_case(cfg: &Config, tmp: &std::path::Path, idx: u64, r: &mut Rng, st: &mut
     // single terms
     for _ in 0..3 {
         let t = gen_flat_term(r, 3);
-        roundtrip::<asp::Term>("term", &t, &no_class, st);
+        roundtrip::<asp::Term>("term", &t, &asp_class, st);
     }
+}
+
+fn replay_known_c14(k: &KnownFinding) -> bool {
+    let Some(t) = k.witness.str("program") else { return false };
+    let mut st = Stats::default();
+    roundtrip::<asp::Program>("program", t, &asp_class, &mut st);
+    st.violations.iter().any(|v| v.class == k.class)
 }
 
 pub fn run_c14(cfg: &Config) -> i32 {
@@ -214,6 +252,11 @@ pub fn run_c14(cfg: &Config) -> i32 {
     let budget = Duration::from_secs_f64(cfg.pick(30.0, 300.0) * cfg.scale);
     let stats = parallel(cfg, "main", cfg.scaled(cfg.pick(300_000, 10_000_000)), budget, |idx, r, st| asp_case(cfg, &tmp, idx, r, st));
     let _ = std::fs::remove_dir_all(&tmp);
+    let mut known_replayed_c14 = Vec::new();
+    for k in load_known(cfg).into_iter().filter(|k| k.property == "C14" && k.status == "open") {
+        let still = replay_known_c14(&k);
+        known_replayed_c14.push((k, still));
+    }
     finish(
         cfg,
         started,
@@ -224,7 +267,7 @@ pub fn run_c14(cfg: &Config) -> i32 {
             assumptions: vec!["tree equality is anthem's derived PartialEq".into()],
             floor: cfg.pick(100_000, 500_000),
             floor_counter: "roundtrips_ok".into(),
-            known_replayed: vec![],
+            known_replayed: known_replayed_c14,
             extra: J::obj(),
         },
     )
